@@ -144,11 +144,11 @@ _TRIM_TRAIL_LOOP = {"token_trim_trailing_whitespace": [{
     "assigns": "t->len", "decreases": "t->len"}]}
 _TRIM_NATIVE = {"repo": ["token.c", "char.c"]}
 _TRIM_ASSUME = ["char_is_whitespace / char_is_whitespace_or_line_ending used through their contracts (proved for all 256 bytes in unit char_classes)", "source object of 1..2^40 bytes"]
-U("trim_leading", ["C15", "C01"], "h_trim_leading", ["C15/trim.c"], ["token.c", "char.c"], enforce="token_trim_leading_whitespace", replace=["char_is_whitespace"],
+U("trim_leading", ["C15", "C01", "C16"], "h_trim_leading", ["C15/trim.c"], ["token.c", "char.c"], enforce="token_trim_leading_whitespace", replace=["char_is_whitespace"],
   loops=_TRIM_LEAD_LOOP, lib=(), native=_TRIM_NATIVE, small=["-DSRC_MAX=8"], callees={"char_is_whitespace": "contract"}, assumptions=_TRIM_ASSUME, cost=5)
-U("trim_trailing", ["C15", "C01"], "h_trim_trailing", ["C15/trim.c"], ["token.c", "char.c"], enforce="token_trim_trailing_whitespace", replace=["char_is_whitespace_or_line_ending"],
+U("trim_trailing", ["C15", "C01", "C16"], "h_trim_trailing", ["C15/trim.c"], ["token.c", "char.c"], enforce="token_trim_trailing_whitespace", replace=["char_is_whitespace_or_line_ending"],
   loops=_TRIM_TRAIL_LOOP, lib=(), native=_TRIM_NATIVE, small=["-DSRC_MAX=8"], callees={"char_is_whitespace_or_line_ending": "contract"}, assumptions=_TRIM_ASSUME, cost=5)
-U("trim_both", ["C15", "C01"], "h_trim_both", ["C15/trim.c"], ["token.c", "char.c"], enforce="token_trim_whitespace",
+U("trim_both", ["C15", "C01", "C16"], "h_trim_both", ["C15/trim.c"], ["token.c", "char.c"], enforce="token_trim_whitespace",
   replace=["token_trim_leading_whitespace", "token_trim_trailing_whitespace"], lib=(), native=_TRIM_NATIVE, small=["-DSRC_MAX=8"],
   callees={"token_trim_leading_whitespace": "contract (unit trim_leading)", "token_trim_trailing_whitespace": "contract (unit trim_trailing)"}, assumptions=_TRIM_ASSUME, cost=5)
 U("char_classes", ["C15", "C01"], "h_char_classes", ["C15/trim.c"], ["char.c", "token.c"], plain=True, lib=(), kind="proof", functions=["char_is_whitespace", "char_is_line_ending", "char_is_whitespace_or_line_ending", "char_is_punctuation", "char_is_alpha", "char_is_digit", "char_is_alphanumeric", "char_is_lower_case", "char_is_upper_case", "char_is_intraword", "char_is_whitespace_or_punctuation", "char_is_whitespace_or_line_ending_or_punctuation"],
